@@ -95,6 +95,10 @@ type deepCase struct {
 	holdK   [2]int // response-added steering for the first and second response (0 = none)
 	flush   int
 	pauseUs int
+	// parts > 1: the messages go round the partitions of one broker and the cluster answers slowly, so that
+	// one request carries batches of several partitions and the word refuses several of them in one response
+	parts   int
+	delayMs int
 }
 
 func deepCases(prop, tier string) []directedCase {
@@ -119,6 +123,19 @@ func deepCases(prop, tier string) []directedCase {
 		for _, fl := range []int{0, 2, 3} {
 			for _, pause := range []int{100, 300, 1000} {
 				out = append(out, directedCase{deep: &deepCase{word: w, flush: fl, pauseUs: pause}, retry: 5, idem: prop == "C05"})
+			}
+		}
+	}
+	// several partitions of one broker refused in one response
+	for _, w := range [][]int{{O, R, R}, {O, R, R, R}, {R, R}, {O, R, O, R, R}, {O, R, R, O, R, R, R}} {
+		for _, parts := range []int{2, 3} {
+			for _, delay := range []int{2, 5} {
+				for _, idem := range []bool{false, true} {
+					if (prop == "C05" && !idem) || (prop == "C18" && idem) {
+						continue
+					}
+					out = append(out, directedCase{deep: &deepCase{word: w, pauseUs: 150, parts: parts, delayMs: delay}, retry: 4, idem: idem})
+				}
 			}
 		}
 	}
@@ -177,8 +194,15 @@ func directedScenario(prop string, c directedCase, rng *rand.Rand) *prodScenario
 				sc.Steer = append(sc.Steer, steerSpec{Kind: "response-added", Nth: i + 1, K: k})
 			}
 		}
+		if c.deep.parts > 1 {
+			sc.Brokers, sc.Parts, sc.ProduceDelayMs = 1, c.deep.parts, c.deep.delayMs
+		}
 		for i := 0; i < 12; i++ {
-			sc.Msgs = append(sc.Msgs, &msgSpec{ID: i, Topic: "t", Part: 0, N: i, Value: valueFor(i, 3, rng), KeyNil: true, PauseUs: c.deep.pauseUs})
+			ms := &msgSpec{ID: i, Topic: "t", Part: 0, N: i, Value: valueFor(i, 3, rng), KeyNil: true, PauseUs: c.deep.pauseUs}
+			if c.deep.parts > 1 {
+				ms.Part, ms.N = int32(i%c.deep.parts), i/c.deep.parts
+			}
+			sc.Msgs = append(sc.Msgs, ms)
 		}
 		if prop == "C18" {
 			sc.Interceptors = []icSpec{{"count"}, {"mutate"}}
